@@ -149,14 +149,25 @@ type RefResult struct {
 	Doc    *ast.QueryDocument
 	// MissingHits counts fields made unavailable by ReferenceMissing.
 	MissingHits int
+	// DeniedPaths lists the response paths at which a denied coordinate was selected.
+	DeniedPaths [][]any
 }
 
 // Reference executes op on the monolith. A non-nil error means the operation is not valid
 // for the supergraph (generator/oracle disagreement) or its variables do not coerce.
 func (w *World) Reference(op opgen.Op) (*RefResult, error) { return w.ReferenceMissing(op, nil) }
 
+// ReferenceDenied is Reference with some field coordinates denied (C14).
+func (w *World) ReferenceDenied(op opgen.Op, denied func(typeName, fieldName string) bool) (*RefResult, error) {
+	return w.referenceWith(op, nil, denied)
+}
+
 // ReferenceMissing is Reference with some (object, response key) pairs unavailable.
 func (w *World) ReferenceMissing(op opgen.Op, missing func(ref.Obj, string) bool) (*RefResult, error) {
+	return w.referenceWith(op, missing, nil)
+}
+
+func (w *World) referenceWith(op opgen.Op, missing func(ref.Obj, string) bool, denied func(string, string) bool) (*RefResult, error) {
 	doc, errs := gqlparser.LoadQuery(w.Super, op.Query)
 	if errs != nil {
 		return nil, fmt.Errorf("gqlparser rejects the operation: %v", errs)
@@ -179,9 +190,9 @@ func (w *World) ReferenceMissing(op opgen.Op, missing func(ref.Obj, string) bool
 	if err != nil {
 		return nil, fmt.Errorf("variables do not coerce: %w", err)
 	}
-	ex := &ref.Exec{U: w.U, Super: w.Super, Schema: w.Super, Doc: doc, Vars: vars, Missing: missing}
+	ex := &ref.Exec{U: w.U, Super: w.Super, Schema: w.Super, Doc: doc, Vars: vars, Missing: missing, Denied: denied}
 	data, eerrs := ex.Run(opDef.Name)
-	return &RefResult{Data: data, Errors: eerrs, Doc: doc, MissingHits: ex.MissingHits}, nil
+	return &RefResult{Data: data, Errors: eerrs, Doc: doc, MissingHits: ex.MissingHits, DeniedPaths: ex.DeniedPaths}, nil
 }
 
 // Request is one recorded subgraph request.
